@@ -58,10 +58,11 @@ func init() {
 			}
 			last := argT(fa, c, 1)
 			ok := last.IsCall("keeper.Keeper.LastRewardClaimTime") && fa.HasGuard(c, func(g Guard) bool {
-				if !g.Pos || !g.Cond.IsCall("time.Time.After") || !isBlockTime(g.Cond.Args[0]) {
+				// BlockTime.After(next), in the one spelling of librarySynonym: next.Before(BlockTime)
+				if !g.Pos || !g.Cond.IsCall("time.Time.Before") || !isBlockTime(g.Cond.Args[1]) {
 					return false
 				}
-				nx := g.Cond.Args[1]
+				nx := g.Cond.Args[0]
 				return nx.IsCall("time.Time.Add") && nx.Args[0].Eq(last) && nx.Args[1].IsCall("keeper.Keeper.RewardClaimInterval")
 			})
 			r.Check(ok, k, "fires iff block time is after last + interval", "DeductAssetsWithTakeRate(last, ..) under BlockTime.After(last.Add(interval)), both read from the stored parameters", "the take-rate deduction is not triggered exactly when the block time is after the stored clock plus the stored interval, or it is given another clock value than the one tested", r.P(c))
@@ -222,7 +223,8 @@ func init() {
 			}
 			sets := callsAsInstrs(CallsTo(fn, "keeper.Keeper.SetLastRewardClaimTime"))
 			if trail := fa.MustFollow(quo, sets); trail != nil {
-				r.Bad(k, "clock advanced on every exit after n was computed", "the hook can return without moving the take-rate clock although whole intervals have elapsed: the next deduction charges all of them at once, including stake deposited in the meantime", trail, r.P(quo))
+				fp := fa.EscapeEdges(quo, sets, func(ret *ssa.Return) bool { return !fa.IsErrorExit(ret) })
+				r.BadAt(k, "clock advanced on every exit after n was computed", "the hook can return without moving the take-rate clock although whole intervals have elapsed: the next deduction charges all of them at once, including stake deposited in the meantime", trail, fp, r.P(quo))
 			} else {
 				r.OK(k, "clock advanced on every exit after n was computed", "every success exit passes SetLastRewardClaimTime", r.P(quo))
 			}
@@ -338,7 +340,14 @@ func init() {
 			r.Check(okMin, k, "clamped from below", "if weight < Min { weight = Min } on the decayed value", "the decayed weight is not raised to the range minimum when it falls below it", r.P(decay))
 			okMax := toMax != nil && fa.Dominates(decay, toMax) && fa.HasGuard(toMax, func(g Guard) bool {
 				rs := relsOf(g)
-				return len(rs) == 1 && rs[0].Op == ">" && rs[0].B == fa.Term(toMax.Val).String() && strings.HasPrefix(rs[0].A, "mem<")
+				if len(rs) != 1 {
+					return false
+				}
+				a, op, b := rs[0].A, rs[0].Op, rs[0].B
+				if op == "<" { // Max < weight, the spelling of librarySynonym for weight.GT(Max)
+					a, op, b = b, ">", a
+				}
+				return op == ">" && b == fa.Term(toMax.Val).String() && strings.HasPrefix(a, "mem<")
 			})
 			r.Check(okMax, k, "clamped from above", "if weight > Max { weight = Max } on the (possibly raised) value", "the decayed weight is not lowered to the range maximum when it exceeds it", r.P(decay))
 			// both clamp tests lie on every path from the decay to the update
@@ -379,7 +388,7 @@ func init() {
 				rate := recvT(fa, pw)
 				r.Check(fa.HasFact(pw, rate.String(), "!=", "1"), k, "no step when the rate is one", "dominated by !rate.Equal(1)", "the decay step runs with rate 1", r.P(pw))
 				due := fa.HasGuard(pw, func(g Guard) bool {
-					return !g.Pos && g.Cond.IsCall("time.Time.After") && isBlockTime(g.Cond.Args[1]) && g.Cond.Args[0].IsCall("time.Time.Add") && g.Cond.Args[0].Args[0].Eq(last) && g.Cond.Args[0].Args[1].Eq(interval)
+					return !g.Pos && g.Cond.IsCall("time.Time.Before") && isBlockTime(g.Cond.Args[0]) && g.Cond.Args[1].IsCall("time.Time.Add") && g.Cond.Args[1].Args[0].Eq(last) && g.Cond.Args[1].Args[1].Eq(interval)
 				})
 				r.Check(due, k, "no step before a whole interval has elapsed", "dominated by !(last+interval).After(BlockTime)", "the decay step can run before the next change is due", r.P(pw))
 			}
